@@ -71,19 +71,20 @@ def resolve(name):
     else:
         if parts[0] not in _ALLOWED_ROOTS:
             raise Skip(f"name {name}")
-        obj = None
-        # longest importable module prefix
-        for i in range(len(parts), 0, -1):
-            try:
-                obj = importlib.import_module(".".join(parts[:i]))
-                rest = parts[i:]
-                break
-            except ImportError:
+        # Attribute access first, the way user code spells it (``ufl.action`` is the
+        # function re-exported by the package although a sub-module of that name exists);
+        # a sub-module is imported only when the attribute is missing.
+        obj = importlib.import_module(parts[0])
+        for i, p in enumerate(parts[1:], 1):
+            if p.startswith("__"):
+                raise Skip(f"name {name}")
+            if hasattr(obj, p):
+                obj = getattr(obj, p)
                 continue
-        else:
-            raise Skip(f"name {name}")
-        for p in rest:
-            obj = getattr(obj, p)
+            try:
+                obj = importlib.import_module(".".join(parts[: i + 1]))
+            except ImportError:
+                raise Skip(f"name {name}")
         f = obj
     _resolve_cache[name] = f
     return f
